@@ -76,6 +76,8 @@ def evaluate(spec, wd):
     classes = strategies.expr_classes(spec)
     # expressions are compiled for all four scalar types (C09 covers forms only); complex types get complex data
     st_ = ["float64", "float64", "float32", "complex128", "complex64"][spec["data_seed"] % 5]
+    if "op:pow-int-base" in spec.get("_features", []) and "complex" in st_:
+        st_ = "float64"  # 2**f: UFL's complex-mode lowering does not terminate on it
     classes.append("scalar:" + st_)
     built = specs.build(sclean)
     expr, pts = built.obj
@@ -204,7 +206,7 @@ def _sdr(cands):
 def shard(shard, nshards, n, tier, seed):
     res = ShardResult()
     with scratch(f"vf-c04-{shard}-") as wd:
-        drive(strategies.expr_specs(), lambda s: evaluate(s, wd), n, (PROP, seed, shard), res, shrink_calls=40)
+        drive(strategies.expr_specs({"int_base_pow": True}), lambda s: evaluate(s, wd), n, (PROP, seed, shard), res, shrink_calls=40)
     return res
 
 
